@@ -86,11 +86,14 @@ def fold(n, env):
         return [fold(e, env) for e in n.elts]
     if isinstance(n, ast.Call):
         f = fold(n.func, env)
-        if callable(f) and not n.keywords:
-            return f(*[fold(a, env) for a in n.args])
+        if callable(f) and all(k.arg for k in n.keywords):
+            return f(*[fold(a, env) for a in n.args], **{k.arg: fold(k.value, env) for k in n.keywords})
         raise CannotFold(ast.unparse(n))
     if isinstance(n, ast.Subscript) and not isinstance(n.slice, ast.Slice):
-        return fold(n.value, env)[fold(n.slice, env)]
+        v, k = fold(n.value, env), fold(n.slice, env)
+        if isinstance(v, Stub) or isinstance(k, Stub):
+            raise CannotFold(ast.unparse(n))
+        return v[k]
     if isinstance(n, ast.Subscript):
         sl = n.slice
         v = fold(n.value, env)
